@@ -11,7 +11,7 @@ D = "config.json programs/tables translated to SMT (z3 reals), walk model valida
 
 CHECKS = {
     "C01": ("K", "model_checking",
-            "line splitting: Session::set_text on every text of <= 4 lines with symbolic line contents and every LF/CRLF separator pattern (also mixed) stores exactly one part per line (MIR; Regex::split modelled for the constant pattern \\r\\n|\\n only); execute_session's loop: for every line count 1..4 and every per-line outcome exactly one slot per line, status true (CBMC); stages C-E (token glue, parser ladder, interpreter) executed symbolically from MIR on every token list of length <= 4 (quick) / 5 (thorough) over {number, + - * / ( )}: no satisfiable panic path, every loop and recursion terminates; panic-freedom of the rule functions and DataItem kernels is decided by the engine-M parts of C05/C06/C09/C10/C11/C13/C14 (every panic path of the translated functions is a reachability query)",
+            "line splitting: Session::set_text on every text of <= 4 lines with symbolic line contents and every LF/CRLF separator pattern (also mixed) stores exactly one part per line (MIR; Regex::split modelled for the constant pattern \\r\\n|\\n only); execute_session's loop: for every line count 1..4 and every per-line outcome exactly one slot per line, status true (CBMC); stages C-E (token glue, parser ladder, interpreter) executed symbolically from MIR on every token list of length <= 4 (quick) / 5 (thorough) over {number, + - * / ( )} and over the same alphabet plus an unabsorbed word and a time-zone name: no satisfiable panic path, every loop and recursion terminates (a loop the executor cannot leave is replayed natively; a run that does not return is the violation); panic-freedom of the rule functions and DataItem kernels is decided by the engine-M parts of C05/C06/C09/C10/C11/C13/C14 (every panic path of the translated functions is a reachability query)",
             "stage A (regex tokenisers, load_from_json) is outside the claim; the regex engine itself is a contract model in the line-splitting part; execute_text is a nondeterministic stub inside the loop harness; token lists are bounded in length and alphabet",
             "solver-based: CBMC bounded model checking + z3 over MIR-derived path conditions"),
     "C02": ("K+M", "model_checking",
@@ -19,7 +19,7 @@ CHECKS = {
             "literal spelling / spacing / k-M-G suffixes are stage A (regex) and outside; f64 rounding of individual operations outside (real relaxation); expression length bounded",
             "solver-based: z3 over SMT generated from the MIR of the real parser/interpreter + CBMC"),
     "C03": ("M", "translation_validation",
-            "every straight-line program of <= 3 lines (quick; plus all three names bound then any two statements) / <= 4 lines (thorough) over 17 statement templates (assignments, self-referential re-assignments, uses, lines failing in the parser, lines failing in the interpreter, copies) with one- and two-word names where one name is a prefix of another, through the REAL update_token_variables, token_generator, token_cleaner, missing_token_adder, AssignmentParser and interpreter (MIR): each line evaluates to the value given by the latest bindings for ALL real constants",
+            "every straight-line program of <= 3 lines (quick; plus all three names bound then any two statements) / <= 4 lines (thorough) over 22 statement templates (assignments, self-referential re-assignments, uses, lines failing in the parser, lines failing in the interpreter, copies, a name spelled with capitals, a three-word name followed by an operator and another name, a name directly followed by another name) with one-, two- and three-word names where one name is a prefix of another, through the REAL update_token_variables, token_generator, token_cleaner, missing_token_adder, AssignmentParser and interpreter (MIR): each line evaluates to the value given by the latest bindings for ALL real constants",
             "names are Text tokens (case folding and literal spelling are stage A); values are numbers; program length and name pool bounded",
             "solver-based: z3 over SMT generated from the MIR, program shapes enumerated exhaustively"),
     "C04": ("K+M", "model_checking",
@@ -27,39 +27,43 @@ CHECKS = {
             "Regex::split is a contract model for the constant line-separator pattern; immutability is decided for the rule-rewriting stage (the only stage that holds references into the configuration's token objects) with one API rule",
             "solver-based: MIR symbolic execution + CBMC"),
     "C05": ("M+K", "translation_validation",
-            "all percentage formulas: number_on/of/off, find_numbers_percent, find_total_from_percent, X +- p% for numbers and money: on every path of the translated functions the result equals the textbook formula over the reals, zero divisors yield 0, money keeps its currency, no panic and no Err under the rule patterns; CBMC adds the result kinds on all f64",
+            "all percentage formulas: number_on/of/off, find_numbers_percent, find_total_from_percent, X +- p% for numbers and money: on every path of the translated functions the result equals the textbook formula over the reals, zero divisors yield 0, money keeps its currency, no panic and no Err under the rule patterns (exactly the fields of the matched pattern are bound); every phrase of the property as a token line through the REAL rule table of config.json (patterns dumped natively from the loader on every run), rule_tokinizer / find_match, glue, parser and interpreter: the phrase evaluates to its formula in the operand's kind and currency, i.e. each pattern reaches its own rule function with the right field names and no other rule captures the tokens; CBMC adds the result kinds on all f64",
             "f64 rounding of individual operations is outside (real relaxation); the two spellings p% / %p are regex; Variable operands (dyn Any downcast) are outside",
             "solver-based: z3 over SMT generated from the MIR of the real functions"),
     "C06": ("M+K", "translation_validation",
-            "convert_money and MoneyItem::calculate for symbolic rates and currencies: amount / rate(A) * rate(B), identity for A = B, left currency kept, scaling by numbers, money/money as plain ratio; CBMC adds kinds/currency identity on all f64",
+            "convert_money and MoneyItem::calculate for symbolic rates and currencies: amount / rate(A) * rate(B), identity for A = B, left currency kept, scaling by numbers, money/money as plain ratio; CBMC adds kinds/currency identity on all f64; rule wiring: the property's phrases as token lines through rule_tokinizer with config.json's own rule table (dumped natively per run): each phrase is taken by exactly its rule function with the fields bound by name to the right tokens",
             "rate table lookups are uninterpreted functions of the currency; update_currency histories and literal spellings are outside; f64 rounding outside",
             "solver-based: z3 over SMT generated from the MIR of the real functions"),
     "C18": ("M", "translation_validation",
             "registration bookkeeping: every sequence of <= 4 (quick) / 5 (thorough) calls of add_rule / delete_rule / add_dynamic_type / add_dynamic_type_item with three rule objects whose names are symbolic strings, two languages (one unknown), one family, two indices: return values and resulting rule order / family tables equal a reference list model (add fails only for an unknown language, delete removes the first rule of that name, duplicates rejected without change); API-rule effect: a match calls the rule with fields bound by name and replaces exactly the matched span, a declining rule leaves the line unchanged",
             "pattern tokenisation of rule strings (add_rule runs the regex tokeniser on its patterns) and user-family conversion arithmetic are outside: rules are registered with empty pattern lists in the bookkeeping spec and with a hand-built pattern in the effect spec",
             "solver-based: z3 over SMT generated from the MIR, call sequences enumerated exhaustively"),
+    "C07": ("M", "translation_validation",
+            "formatter::format_number from MIR with float -> decimal text as a contract model ({:.N} gives the digits of |x| 10^N rounded half-even, {} the shortest exact text): for every real |x| < 10^7, digit counts 0..3 (and 10, 19 for |x| < 1000), both zero-removal settings and symbolic separator strings the output is [-] + the integer digits grouped in threes by the thousands separator + [decimal separator + fraction digits], the fraction omitted exactly when removal is on and every printed fraction digit is 0; the same with every float operation of the code carrying a relative error <= 2^-53 (a second, separately rounded computation cannot decide the digits); no panic for any digit count; print of numbers, percentages, money and unit quantities hands its own value, separators and settings to format_number once and composes '%', currency symbol side/blank and the unit format around it",
+            "the digit generation of core::fmt (grisu/dragon) is assumed to meet its documentation and is not executed; more than 7 integer digits and, with rounding off, more than 3 fraction digits are outside the bound; values are reals (NaN/inf outside)",
+            "solver-based: z3 over SMT generated from the MIR, digit-count shapes enumerated, digits symbolic"),
     "C09": ("K+M", "model_checking",
-            "DateItem::calculate on the real chrono: every date of years 1..9999 +- n days (n < 30) is exactly n days away; + Y years M months keeps the day and moves the month index by 12Y+M inside the stated region (CBMC); small_date accepts exactly the calendar dates and denotes them (z3 over MIR, Gregorian model validated against chrono by CBMC); 'A to B' on dates is the absolute difference",
+            "DateItem::calculate on the real chrono: every date of years 1..9999 +- n days (-30 < n < 30, negative counts included) is exactly n days away; + Y years M months keeps the day and moves the month index by 12Y+M inside the stated region (CBMC); small_date accepts exactly the calendar dates and denotes them (z3 over MIR, Gregorian model validated against chrono by CBMC); 'A to B' on dates is the absolute difference; rule wiring: the property's phrases as token lines through rule_tokinizer with config.json's own rule table (dumped natively per run): each phrase is taken by exactly its rule function with the fields bound by name to the right tokens",
             "month/year arithmetic of DateItem::calculate outside the stated region (December landings, day > 28, subtraction across a year boundary, day counts >= 30 that are not month multiples) is NOT claimed: it has defects documented in DESIGN.md section 7; date spellings are regex",
             "solver-based: CBMC bounded model checking + z3 over MIR"),
     "C10": ("M", "translation_validation",
-            "duration_parse (unit lengths, |N| <= 10^6), combine_durations (sum of 2..6 parts), as_duration (floor to unit), DurationItem::calculate (+,-), DurationItem::print (greedy decomposition: parts sum to |D|, counts >= 1 and below the next unit, descending) for every duration in chrono's range; integers exact",
+            "duration_parse (unit lengths, |N| <= 10^6), combine_durations (sum of 2..6 parts), as_duration (floor to unit), DurationItem::calculate (+,-), DurationItem::print (greedy decomposition: parts sum to |D|, counts >= 1 and below the next unit, descending; a non-zero duration - negative ones included - never prints as nothing when a format table exists) for every duration in chrono's range; integers exact; rule wiring: the property's phrases as token lines through rule_tokinizer with config.json's own rule table (dumped natively per run): each phrase is taken by exactly its rule function with the fields bound by name to the right tokens",
             "unit word spellings / singular-plural word choice are data + regex; chrono's TimeDelta modelled as whole seconds",
             "solver-based: z3 (linear integer arithmetic) over SMT generated from the MIR"),
     "C11": ("M", "translation_validation",
-            "TimeItem::calculate moves the clock by D mod 24 h in the right direction for every time and duration; DurationItem::as_time is |D| mod 24 h; convert_timezone keeps the instant and installs the target offset; time_with_timezone keeps the wall reading for all offsets within +-14 h",
-            "chrono modelled as (day number, second of day); chrono::Local modelled as one arbitrary fixed offset; zone table lookup, am/pm and GMT+-h:mm parsing are regex code",
+            "TimeItem::calculate moves the clock by D mod 24 h in the right direction for every time and duration; DurationItem::as_time is |D| mod 24 h; convert_timezone keeps the instant and installs the target offset; time_with_timezone keeps the wall reading for all offsets within +-14 h; the clock-time tokeniser's kernel (time_regex_parser with one regex match as symbolic input, constrained by what config.json's time patterns can match): the literal is the instant today + wall time - configured offset with the day carry, pm adds 12 hours ('12 am' read as noon is a recorded known finding); parse_timezone on symbolic captures; rule wiring: the property's phrases as token lines through rule_tokinizer with config.json's own rule table (dumped natively per run): each phrase is taken by exactly its rule function with the fields bound by name to the right tokens",
+            "chrono modelled as (day number, second of day); chrono::Local modelled as one arbitrary fixed offset; the regex engine itself is outside: a match is an input whose groups satisfy what the patterns guarantee; zone table lookup is data",
             "solver-based: z3 over SMT generated from the MIR with validated chrono models"),
     "C12": ("D", "translation_validation",
-            "all 1089 ordered pairs of the 33 configured units: the composed conversion programs equal the standard definitions, different kinds have no path, round trips and transitivity hold (z3 over exact rationals); the walk model is compared with the native crate on all pairs at two amounts on every run; DynamicTypeItem::calculate converts the right operand into the left unit, keeps the unit when scaling, yields a plain number for a ratio (z3 over MIR, conversion uninterpreted)",
+            "all 1089 ordered pairs of the 33 configured units: the composed conversion programs equal the standard definitions, different kinds have no path, round trips and transitivity hold (z3 over exact rationals); the walk model is compared with the native crate on all pairs at two amounts on every run; DynamicTypeItem::calculate converts the right operand into the left unit, keeps the unit when scaling, yields a plain number for a ratio (z3 over MIR, conversion uninterpreted); rule wiring: the property's phrases as token lines through rule_tokinizer with config.json's own rule table (dumped natively per run): each phrase is taken by exactly its rule function with the fields bound by name to the right tokens",
             "f64 rounding along the chain and separator-dependent re-tokenisation (C08) are outside",
             "solver-based: z3 over the linear programs of config.json + native translator validation"),
     "C13": ("M+K", "translation_validation",
-            "NumberItem::print hands the {:#b}/{:#o}/{:#X} formatter exactly N for every integer 0 <= N <= 2^53; number_type_convert rounds half away from zero and sets the named type for all five keywords; NumberItem::calculate keeps the left NumberType (CBMC, all f64)",
+            "NumberItem::print hands the {:#b}/{:#o}/{:#X} formatter exactly N for every integer 0 <= N <= 2^53; number_type_convert rounds half away from zero and sets the named type for all five keywords; NumberItem::calculate keeps the left NumberType (CBMC, all f64); rule wiring: the property's phrases as token lines through rule_tokinizer with config.json's own rule table (dumped natively per run): each phrase is taken by exactly its rule function with the fields bound by name to the right tokens",
             "radix literal reading (from_str_radix inside the regex tokeniser) is outside",
             "solver-based: z3 over MIR + CBMC"),
     "C14": ("M", "translation_validation",
-            "from_unixtime / to_unixtime are mutually inverse for all timestamps of years 1..9999, '<date> as unix' is midnight UTC, the Raw print shows every digit of every such timestamp",
+            "from_unixtime / to_unixtime are mutually inverse for all timestamps of years 1..9999, '<date> as unix' is midnight UTC, the Raw print shows every digit of every such timestamp; rule wiring: the property's phrases as token lines through rule_tokinizer with config.json's own rule table (dumped natively per run): each phrase is taken by exactly its rule function with the fields bound by name to the right tokens",
             "chrono's from_timestamp/timestamp/and_hms are modelled on (day number, second of day); DateTimeItem::print and at_date spellings are outside",
             "solver-based: z3 over SMT generated from the MIR with chrono models"),
 }
